@@ -28,7 +28,7 @@ def RealOf(f):
 BUILTIN_NAMES = {'len', 'min', 'max', 'int', 'range', 'enumerate', 'list', 'callable', 'isinstance', 'hex', 'str',
                  'bool', 'abs', 'print', 'bytes', 'bytearray', 'sum', 'float', 'tuple', 'dict'}
 SPEC_NAMES = {'old', 'implies', 'forall', 'exists', 'ite', 'octets', 'bits', 'seq', 'at_entry', 'unchanged',
-              'same_elems', 'same_list', 'owner', 'has_keys', 'table_same_except', 'iff', 'keys_forall', 'typeis', 'fresh_list', 'count', 'select', 'intdiv',
+              'same_elems', 'same_list', 'owner', 'last_removed_index', 'has_keys', 'table_same_except', 'iff', 'keys_forall', 'typeis', 'fresh_list', 'count', 'select', 'intdiv',
               'is_none', 'rep', 'concat', 'at_head', 'has_key', 'no_alias', 'allocated_before', 'steps', 'sumlen', 'fn', 'method'}
 EXC_NAMES = set(EXC_PARENTS) | {'RuntimeWarning'}
 
@@ -208,6 +208,18 @@ class Interp:
         st = self.st
         sa, sb = seq_of(st, a) if isinstance(a, VList) else a, seq_of(st, b) if isinstance(b, VList) else b
         la, lb = sa.len, sb.len
+        # an event argument (snapshot backed by an array) against a heap list / another snapshot: quantifier-free
+        # comparison of the element arrays (the snapshot copies the array of the list that was passed)
+        ia = sa.inner if sa.inner is not None else None
+        ib = sb.inner if sb.inner is not None else None
+        if (ia is not None or ib is not None) and isinstance(a, (VList, VSeq)) and isinstance(b, (VList, VSeq)):
+            if ia is None and isinstance(a, VList) and isinstance(a.elem, TInt):
+                ia = list_inner(st, a)
+            if ib is None and isinstance(b, VList) and isinstance(b.elem, TInt):
+                ib = list_inner(st, b)
+            if ia is not None and ib is not None:
+                ka, kb = list_kind(st, a), list_kind(st, b)
+                return z3.simplify(z3.And(la == lb, (ka == KIND_LIST) == (kb == KIND_LIST), ia == ib))
         conj = [la == lb]
         # list vs bytes-like never compare equal in Python
         ka, kb = list_kind(st, a), list_kind(st, b)
@@ -1074,6 +1086,8 @@ class Interp:
             T_ = self.schema.field_type(obj.cls, attr) if obj.cls else None
             if T_ is not None:
                 return field_load(st, 'a:%s.%s' % (obj.cls, attr), T_, obj.t)
+            if obj.cls and (obj.cls, attr) in self.schema.ext_methods:
+                return VBuiltin(('ext', obj, attr))
             if attr in ('get', 'copy', 'keys', 'items', 'values', 'pop'):
                 return VBuiltin(('m', obj, attr))
             raise EngineError('attribute %s on object of unknown/undeclared class %r (line %s)' % (attr, obj.cls, st.cur_line))
